@@ -56,6 +56,8 @@ def native_test(world, crate, host_rel, test_src, test_name, release=True, timeo
                 p = subprocess.run(cmd, cwd=ws, env=env, stdout=subprocess.PIPE, stderr=subprocess.STDOUT, timeout=timeout)
                 txt = p.stdout.decode(errors='replace')
                 ran = re.search(r'test result: (ok|FAILED)\. (\d+) passed; (\d+) failed', txt)
+                if 'VERIF-VIOLATED' in txt and 'VERIF-VIOLATED' not in txt[-3000:]:
+                    i = txt.index('VERIF-VIOLATED'); txt = txt[:i + 300] + ' ... ' + txt[-2500:]
                 if re.search(r'has overflowed its stack|SIGSEGV|SIGABRT|stack overflow', txt):
                     out[prof] = (False, 'VERIF-VIOLATED process crashed: ' + txt[-1500:])
                 elif not ran or (int(ran.group(2)) + int(ran.group(3))) != 1:
@@ -129,7 +131,7 @@ def run_property(pid, tier, harnesses, world, seed, wall_budget, extra=None):
                 print(f'INCONCLUSIVE property={pid} harness={h.name} paths={n}: {why}', flush=True)
             exit_code = max(exit_code, 2)
         missing = [c for c in h.expected_classes if S.classes.get(c, 0) == 0]
-        if missing:
+        if missing and not S.violations:
             print(f'INCONCLUSIVE property={pid} harness={h.name}: vacuity guard: no path reached classes {missing}', flush=True)
             hs['missing_classes'] = missing
             exit_code = max(exit_code, 2)
